@@ -67,7 +67,7 @@ def tagOpen (tag : String) : Str := '<' :: tag.toList ++ ['>']
 def tagClose (tag : String) : Str := '<' :: '/' :: tag.toList ++ ['>']
 
 /-! views: `r<hex>` `t<hex>` `e<tag>[ … ]` `q[ … ]` `l[ … ]` `s<k>[ … ]` `S<text|->[ … ]` `T<text|->[ … ]`
-    `N<text|->:<noncehex>[ … ]` `A<k>[ … ]` `B[ … ]` -/
+    `N<text|->:<noncehex>[ … ]` `A<k>[ … ]` `B[ … ]` `u<k>[ … ]` `g<o|r|d><k>[ … ]` `L` `M` `W<k>` -/
 def fbHtml (text : String) : Str :=
   if text == "-" then "<!>".toList else "<u>".toList ++ text.toList ++ "</u>".toList
 
@@ -111,35 +111,19 @@ def parseViews : Nat → List String → Option (List View × List String)
       (body ts).bind fun (vs, r) =>
         cont (View.suspense "<!>".toList none [View.suspend f (View.seq vs)]) r
     else if t == "B[" then (body ts).bind fun (vs, r) => cont (View.eb vs) r
+    else if k == 'u' then
+      (stripOpen arg).bind fun f => f.toNat?.bind fun f =>
+      (body ts).bind fun (vs, r) => cont (View.resSuspend f (View.seq vs)) r
+    else if k == 'g' then
+      -- g<kind><k>[ … ]: kind o = OnceResource, r = Resource, d = AsyncDerived (one model)
+      let kind := arg.front
+      if kind == 'o' || kind == 'r' || kind == 'd' then
+        (stripOpen (arg.drop 1).toString).bind fun f => f.toNat?.bind fun f =>
+        (body ts).bind fun (vs, r) => cont (View.resRead f (View.seq vs)) r
+      else none
+    else if t == "L" || t == "M" then cont View.localRead ts
+    else if k == 'W' then arg.toNat?.bind fun f => cont (View.localAwait f) ts
     else none
-
-/-! the classes of the repaired findings F-C07-2/3/4/5 (kept for reference; no known-finding class is left) -/
-mutual
-def hasEb : View → Bool
-  | .raw _ => false
-  | .seq vs => hasEbL vs
-  | .suspend _ v => hasEb v
-  | .suspense _ _ vs => hasEbL vs
-  | .eb _ => true
-def hasEbL : List View → Bool
-  | [] => false
-  | v :: vs => hasEb v || hasEbL vs
-end
-
-mutual
-/-- a `Suspend` inside the output of a `Suspend` that is a child of a `Suspense` -/
-def hasNestedSuspend : Ctx → View → Bool
-  | _, .raw _ => false
-  | c, .seq vs => hasNestedSuspendL c vs
-  | .top, .suspend _ v => hasNestedSuspend .top v
-  | .direct, .suspend _ v => hasNestedSuspend .nested v
-  | .nested, .suspend _ _ => true
-  | _, .suspense _ _ vs => hasNestedSuspendL .direct vs
-  | c, .eb vs => hasNestedSuspendL c vs
-def hasNestedSuspendL : Ctx → List View → Bool
-  | _, [] => false
-  | c, v :: vs => hasNestedSuspend c v || hasNestedSuspendL c vs
-end
 
 mutual
 /-- an out-of-order chunk whose view future resolves to `None` (`replace = false`) -/
